@@ -14,7 +14,7 @@ pub struct C08;
 
 const BASES: &[&str] = &["int", "uint", "float", "angle", "bool", "bit", "complex", "duration", "stretch"];
 const WIDTHS: &[Option<u32>] = &[None, Some(8), Some(32), Some(64)];
-const FORMS: &[&str] = &["literal", "negative-literal", "variable", "const-variable", "arithmetic", "cast", "call", "measurement", "shadowed-variable", "loop-variable", "def-parameter"];
+const FORMS: &[&str] = &["literal", "negative-literal", "variable", "const-variable", "arithmetic", "cast", "call", "measurement", "shadowed-variable", "loop-variable", "def-parameter", "nested-shadowing-variable"];
 const CONTEXTS: &[&str] = &["declaration", "const-declaration", "assignment"];
 
 #[derive(Clone, Copy, PartialEq, Debug)]
@@ -213,6 +213,17 @@ fn build_spelled(ctx: &str, target: Ty, value: Ty, form: &'static str) -> Option
             wrap = Some((format!("def fp({} src) {{ ", text(value)), " }"));
             "src".into()
         }
+        // a global `src` of another type, shadowed one scope down by a `src` of the value type, used two
+        // scopes down: the use means the innermost enclosing declaration
+        "nested-shadowing-variable" => {
+            if ctx != "declaration" {
+                return None;
+            }
+            let other = if value.base == "bool" { "int[32]" } else { "bool" };
+            pre.push_str(&format!("{other} src;\n"));
+            wrap = Some((format!("if (true) {{ {} src; if (true) {{ ", text(value)), " } }"));
+            "src".into()
+        }
         "const-variable" => {
             let (l, _) = literal_for(value)?;
             if value.base == "bit" && !matches!(value.width, None | Some(8)) {
@@ -380,7 +391,7 @@ fn check_case(c: &Case, ctx: &str, obs: &mut Obs) {
     let r = guard(|| {
         let kinds: Vec<String> = res.semantic_errors().iter().map(diag_kind).collect();
         let mut last = res.program().stmts().last().cloned();
-        if let Some(Stmt::If(i)) = &last {
+        while let Some(Stmt::If(i)) = &last {
             last = i.then_branch().statements().last().cloned();
         }
         if let Some(Stmt::ForStmt(f)) = &last {
@@ -397,6 +408,18 @@ fn check_case(c: &Case, ctx: &str, obs: &mut Obs) {
         };
         if let Some(v) = &value {
             check_tree(v, res.symbol_table(), &mut local);
+            // a variable used as the value is the variable declared with the value type
+            if matches!(c.form, "variable" | "shadowed-variable" | "nested-shadowing-variable" | "loop-variable" | "def-parameter") {
+                let mut e = v;
+                while let Expr::Cast(k) = e.expression() {
+                    e = k.operand();
+                }
+                if let Expr::Identifier(Ok(_)) = e.expression() {
+                    if !matches_up_to_const(e.get_type(), c.value) {
+                        local.push(("variable-use-bound-to-another-declaration".into(), format!("the use of `src` is typed {:?}, the innermost enclosing declaration says {}", e.get_type(), text(c.value))));
+                    }
+                }
+            }
             // the literal class is the one of the spelling in the source
             if let Some(spelling) = c.lit {
                 let mut e = v;
@@ -489,6 +512,42 @@ fn check_case(c: &Case, ctx: &str, obs: &mut Obs) {
     obs.done(true);
 }
 
+/// The same tiny program as the innermost file of an include chain behind clean files: the type
+/// diagnostics (and every other diagnostic) must be the same as when it is analysed directly.
+fn check_case_chain(c: &Case, ctx: &str, mids: usize, obs: &mut Obs) {
+    obs.fp.str(&c.src);
+    obs.fp.u64(mids as u64 + 77);
+    let direct = match analyse_text(&c.src) {
+        Ok(r) => {
+            let mut k: Vec<String> = r.semantic_errors().iter().map(diag_kind).collect();
+            k.sort();
+            k
+        }
+        Err(_) => {
+            obs.done(false);
+            return;
+        }
+    };
+    match analyse_chain(&c.src, "", mids, "c08") {
+        Ok(ch) => {
+            let mut k: Vec<String> = ch.diags.iter().map(|d| d.kind.clone()).collect();
+            k.sort();
+            if k != direct {
+                obs.violate(
+                    format!("via-include-chain/{ctx}/{}/{}/{}/diagnostics-differ", class_of(c.target), c.form, c.value_label),
+                    format!("{:?} analysed directly reports {direct:?}; as inner.inc behind {mids} clean include files the lists of all files hold {k:?}", c.src),
+                );
+            }
+            if direct.iter().any(|d| TYPE_DIAGS.contains(&d.as_str())) {
+                obs.class("type-diagnostic-in-nested-include");
+            }
+            obs.done(true);
+        }
+        Err(AErr::Rejected(m)) => obs.inconclusive(format!("chain rejected: {m}")),
+        Err(AErr::Panic(site, _)) => obs.inconclusive(format!("analysis panicked (C03): {site}")),
+    }
+}
+
 fn all_types() -> Vec<Ty> {
     let mut v = Vec::new();
     for b in BASES {
@@ -579,6 +638,8 @@ impl Property for C08 {
             let vw = ["1", "2", "3"][(i / 12) as usize];
             format!("S|{ctx}|{tb}|{tw}|measurement|bit|{vw}")
         }));
+        // one cell in 23 of the table again, behind an include chain with clean files in between
+        v.push(Stream::new("decision-table-sample-behind-include-chains", full / 23, true, |i| format!("C|{}", i * 23 + i % 23)));
         v.push(Stream::new("arithmetic-operator-x-type-pairs", na * nt * nt, true, |i| format!("A|{i}")));
         v
     }
@@ -596,6 +657,22 @@ impl Property for C08 {
             let ctx = CONTEXTS[(i % CONTEXTS.len() as u64) as usize];
             match build(ctx, target, value, form) {
                 Some(c) => check_case(&c, ctx, obs),
+                None => obs.done(false),
+            }
+            return;
+        }
+        if let Some(rest) = input.strip_prefix("C|") {
+            let i0: u64 = rest.parse().unwrap_or(0);
+            let mut i = i0;
+            let target = types[(i % nt) as usize];
+            i /= nt;
+            let value = types[(i % nt) as usize];
+            i /= nt;
+            let form = FORMS[(i % FORMS.len() as u64) as usize];
+            i /= FORMS.len() as u64;
+            let ctx = CONTEXTS[(i % CONTEXTS.len() as u64) as usize];
+            match build(ctx, target, value, form) {
+                Some(c) => check_case_chain(&c, ctx, (i0 % 3) as usize, obs),
                 None => obs.done(false),
             }
             return;
@@ -627,6 +704,6 @@ impl Property for C08 {
         obs.inconclusive("unrecognised input spec");
     }
     fn mandatory_classes(&self, _tier: Tier) -> Vec<&'static str> {
-        vec!["must-diagnose-case", "accepted-case", "diagnosed-case", "arithmetic-case"]
+        vec!["must-diagnose-case", "accepted-case", "diagnosed-case", "arithmetic-case", "type-diagnostic-in-nested-include"]
     }
 }
